@@ -54,26 +54,39 @@ def setup():
 
 
 def _selfcheck():
-    '''The shim's own check: five expressions must parse to the literal
-    trees.'''
-    from MIP.geom.parsegeom import get_ast
+    '''The shim's own check, independent of the repository's grammar and
+    semantics: a tiny left-recursive grammar with named captures must give
+    the literal tree (this is exactly what breaks without the shim).'''
+    import tatsu
+    grammar = """
+        start = sum $ ;
+        sum = | l:sum o:'+' r:prod | o:prod ;
+        prod = | l:prod o:'*' r:atom | o:atom ;
+        atom = | l:'(' o:sum r:')' | o:/\\d+/ ;
+    """
+    model = tatsu.compile(grammar)
 
     def show(node):
-        if isinstance(node, tuple):
-            return '(' + ' '.join(show(x) for x in node) + ')'
-        if hasattr(node, 'surface'):
-            sub = '' if node.sub is None else f'.{node.sub}'
-            return f'{node.surface}{sub}'
-        return str(node)
+        if isinstance(node, str):
+            return node
+        if node.get('l') == '(':
+            return show(node['o'])
+        if node.get('l') is None:
+            return show(node['o'])
+        return f"({show(node['l'])}{node['o']}{show(node['r'])})"
     expected = {
-        '1 -2': '(* 1 -2)',
-        '1:2 3': '(: 1 (* 2 3))',
-        '(1:2) 3': '(* (: 1 2) 3)',
-        '#4 -1.2': '(* (^ 4) -1.2)',
-        '#(1 2)': '(: -1 -2)',
+        '1+2+3': '((1+2)+3)',
+        '1+2*3': '(1+(2*3))',
+        '(1+2)*3': '((1+2)*3)',
+        '1*2*3+4': '(((1*2)*3)+4)',
+        '7': '7',
     }
     for text, tree in expected.items():
-        got = show(get_ast(text))
+        try:
+            got = show(model.parse(text))
+        except Exception as err:  # pylint: disable=broad-except
+            raise Inconclusive(f'TatSu shim self-check failed on {text!r}: '
+                               f'{err!r}') from None
         if got != tree:
             raise Inconclusive(f'TatSu shim self-check failed: {text!r} -> '
                                f'{got}, expected {tree}')
